@@ -407,6 +407,8 @@ func TestC12(t *testing.T) {
 	c12TimedSequences(e, r, w)
 	c12Histories(e, r, w)
 	c12Misc(e, r, w)
+	c12FloatingSupply(e, r, w)
+	c12Ibc(e, r, w) // last: it builds a second marker keeper (one more send restriction on the bank keeper)
 	w.Flush(t)
 }
 
